@@ -56,6 +56,7 @@ func Main(t *testing.T, h Harness) {
 		if err := json.Unmarshal(b, &p); err != nil {
 			fatal("decode plan: %v", err)
 		}
+		warmUp(t, h, p.Property, "quick")
 		marker(p.Seed)
 		res, run := ExecPlan(t, h, &p, true)
 		writeResult(res)
@@ -66,6 +67,7 @@ func Main(t *testing.T, h Harness) {
 			fmt.Fprint(os.Stderr, run.TraceText())
 		}
 	case "batch":
+		warmUp(t, h, *fProp, *fTier)
 		t0 := time.Now()
 		for i := 0; i < *fCount; i++ {
 			if *fDeadline > 0 && time.Since(t0).Seconds() > *fDeadline {
@@ -74,12 +76,25 @@ func Main(t *testing.T, h Harness) {
 			seed := *fFrom + uint64(i)**fStride
 			p := h.Generate(*fProp, *fTier, seed)
 			marker(seed)
-			res, _ := ExecPlan(t, h, p, false)
+			res, run := ExecPlan(t, h, p, false)
 			writeResult(res)
+			if *fTrace != "" {
+				os.WriteFile(fmt.Sprintf("%s.%d", *fTrace, seed), []byte(run.TraceText()), 0o644)
+			}
 		}
 	default:
 		fatal("unknown -sim.cmd %q", *fCmd)
 	}
+}
+
+// warmUp executes one fixed plan and discards it. The first plan of a process
+// pays for lazy global initialisation in the libraries (which also draws from
+// the runtime's deterministic streams); running a throw-away plan first makes
+// every real plan behave the same wherever it sits in a batch and in a fresh
+// replay process.
+func warmUp(t *testing.T, h Harness, prop, tier string) {
+	p := h.Generate(prop, tier, 0)
+	ExecPlan(t, h, p, false)
 }
 
 func fatal(format string, a ...interface{}) {
